@@ -166,6 +166,39 @@ def spellings(rate, bs):
     return out
 
 
+def many_settings_one_converter(ctx, which):
+    import seismic_zfp.conversion as C
+    from seismic_zfp.read import SgzReader
+    d = ctx.tmp()
+    two_d = which == 3
+    path, src = tiny_2d_segy(ctx.work) if two_d else tiny_3d_segy(ctx.work)
+    settings = [s_ for s_ in (gen.SETTINGS_2D if two_d else gen.SETTINGS_3D) if s_[0] >= 1][which::3 if not two_d else 1][:40]
+    n = 0
+    with conv.env.quiet():
+        with C.SegyConverter(path) as c:
+            for k, (rate, bs) in enumerate(settings):
+                out = os.path.join(d, "m.sgz")
+                if os.path.exists(out):
+                    os.remove(out)
+                try:
+                    c.run(out, bits_per_voxel=rate, blockshape=tuple(bs), header_detection="strip")
+                except Exception as e:
+                    raise Violation("valid-setting-refused:converter-reused",
+                                    f"setting #{k + 1} on one converter object, rate {rate} blockshape {bs}: {type(e).__name__}: {e}")
+                with SgzReader(out) as r:
+                    got = np.stack([np.array(r.get_trace(i)) for i in range(r.tracecount)]) if two_d else r.read_volume()
+                if not codec.bits_equal(got, codec.image(src, float(rate))):
+                    raise Violation("accepted-setting-wrong-data:converter-reused", f"setting #{k + 1}, rate {rate} blockshape {bs}")
+                n += 1
+    conv.retire_leftover_workers()
+    ctx.evaluations += n
+    return n
+
+
+def replay_multi(case, ctx):
+    many_settings_one_converter(ctx, case["which"])
+
+
 def shard_main(ctx):
     n = 0
     items = []
@@ -193,6 +226,15 @@ def shard_main(ctx):
                 items.append({"check": "grid-cli", "bpv": int(bpv), "bs": list(bs), "two_d": two_d, "route": "cli",
                               "convert_anyway": k % 3 == 0})
     mine = items[ctx.shard::ctx.nshards]
+    # one converter object asked for many valid settings in a row (a caller walking the grid for one source
+    # file): every one of them is accepted, the 40th as the first
+    if ctx.shard < 4:
+        try:
+            n_multi = many_settings_one_converter(ctx, ctx.shard)
+            ctx.extra["settings_through_one_converter"] = n_multi
+        except Violation as v:
+            ctx.failures.append({"kind": v.kind, "detail": v.detail, "case": {"check": "multi", "which": ctx.shard}})
+            return
     for case in mine:
         try:
             ctx.evaluate(case, run_case)
@@ -205,4 +247,6 @@ def shard_main(ctx):
 
 
 def replay(case, ctx):
+    if case.get("check") == "multi":
+        return replay_multi(case, ctx)
     run_case(case, ctx)
